@@ -645,7 +645,7 @@ impl Property for C04 {
         vec!["comments, PIs and insignificant whitespace are not compared (svgdx mode drops PIs); class lists are compared as token sequences".into()]
     }
     fn families(&self, tier: Tier) -> Vec<Family<Case>> {
-        vec![Family::random("svg11-documents", tier.n(10_000, 250_000), fam_docs)]
+        vec![Family::random("svg11-documents", tier.n(40_000, 250_000), fam_docs)]
     }
     fn judge(&self, c: &Case, _strict: bool) -> Verdict {
         let labels: Vec<String> = c.features.clone();
